@@ -96,6 +96,8 @@ class Imputer(_SeriesToSeriesTransformer):
 
         if self.method == "random":
             if isinstance(Z, pd.DataFrame):
+                # values are assigned column by column below: work on a copy
+                Z = Z.copy()
                 for col in Z:
                     Z[col] = Z[col].apply(
                         lambda i: self._get_random(Z[col]) if np.isnan(i) else i
